@@ -200,6 +200,13 @@ func runCase(c *Case) (res string) {
 		return runTmpl(c, tree)
 	case "wide":
 		return runWide(c)
+	case "ctx":
+		e, err := compileCase(c)
+		if err != nil {
+			return "cerr"
+		}
+		moved, n := xpath.VerifSelectContext(e, tree.At(c.Ctx, withNS), maxResults)
+		return fmt.Sprintf("ctx:%d/%d", moved, n)
 	}
 	return "badkind"
 }
